@@ -44,6 +44,12 @@ checks = {
  "C15": dict(level="exploration", ref="DESIGN.md 3 C15",
    text="A differential oracle: every ActorRef-taking operation (enumerated from the run ordinal, with and without a user Codec) is executed by the same actor against an identical local and remote target inside one simulated run over the in-memory network, and the multisets of observable outcomes must be equal; each visit uses a fresh seeded schedule and mixed read chunking.",
    technique="deterministic simulation: differential local-vs-remote execution over the in-memory transport"),
+ "C17": dict(level="exploration", ref="DESIGN.md 3 C17",
+   text="The property quantifies over views reachable by histories of joins, restarts, status changes and merges under reordering, partitions and clock skew: the cluster simulation produces exactly those, a probe inserted at MergeFromWithOptions checks every merge the real node actors perform (never removes, never regresses, newest incarnation wins, epoch/version-vector entries monotone, changed flag), and the views that were actually gossiped are re-merged in every order of pairs and triples afterwards.",
+   technique="deterministic simulation of the cluster under faults as generator of reachable views, per-merge monitors (instrumenter probe) + order-permutation re-merge over the recorded history"),
+ "C18": dict(level="exploration", ref="DESIGN.md 3 C18",
+   text="2-7 real nodes with remoting and gossip membership in one simulation on one fake clock: minutes of simulated time (40 s timeouts cost microseconds), a drawn fault phase (connection resets, partitions and heals, crash/restart with the same or a new node id, graceful leaves, slow nodes, clock jumps) followed by a bounded quiet phase after which membership, leader and stability are checked on every running node through its real mailbox.",
+   technique="deterministic simulation: multi-node in-memory network, seeded fault schedule, bounded-liveness oracle after faults stop"),
  "C19": dict(level="exploration", ref="DESIGN.md 3 C19",
    text="Concurrent Subscribe/Unsubscribe/UnsubscribeAll/Publish histories with subscriber kills and restarts, stamped with the simulator's global event sequence number and checked for linearizability against a set model with porcupine; plus duplicate, order, post-termination and stale-table-entry oracles.",
    technique="deterministic simulation: seeded scheduler, recorded history checked with porcupine against a sequential model"),
